@@ -14,7 +14,10 @@ package main
 //     upstream closed, goroutines gone, frames whole.
 //  C. connection-write schedules (two writers, Write by Write) from Model/ConnWrite.
 //  D. perturbed stress scripts (free running, seeded delays at every hook point), property
-//     oracle + free-running conformance of the recorded hook traces (`c18.accept`).
+//     oracle + free-running conformance of the recorded hook traces (`c18.accept`); scripts with
+//     `start-refused` (Subscribe fails after the websocket handshake): the hook points of the
+//     refused start's reader and closer against the establishment model (`c18.init.accept`,
+//     Model/SubInit.lean, variant from the regenerated facts).
 
 import (
 	"bufio"
@@ -298,6 +301,25 @@ func runC18(ctx *Ctx) error {
 	volume := ctx.Thorough() && !search
 	ctx.Rep.Note(fmt.Sprintf("regenerated facts: protocol=%s knobs=%v writesLocked=%v isFixed=%v isCurrent=%v", proto, facts["knobs"], locked, facts["isFixed"], facts["isCurrent"]))
 
+	// the establishment phase of Subscribe (Model/SubInit.lean, variant from the regenerated facts)
+	initRes, err := ctx.Driver.Call(map[string]interface{}{"op": "c18.init.explore"})
+	if err != nil {
+		return err
+	}
+	{
+		iw, _ := initRes["witnesses"].(map[string]interface{})
+		var bad []string
+		for _, n := range []string{"fatal", "leak"} {
+			if w, ok := iw[n].(map[string]interface{}); ok {
+				bad = append(bad, fmt.Sprintf("%s by %v", n, w["schedule"]))
+			}
+		}
+		ctx.Rep.Note(fmt.Sprintf("establishment model: variant=%v (initRecognised=%v), %d states, %d transitions, exhaustive=%v, fatal/leak witnesses: %v",
+			initRes["variant"], facts["initRecognised"], c18NumInt(initRes["states"]), c18NumInt(initRes["transitions"]), initRes["complete"], bad))
+		if rec, _ := facts["initRecognised"].(bool); !rec {
+			ctx.Rep.Fail(hx.Failure{Kind: "model-mismatch", Detail: "the establishment sequence of queryer.Subscribe no longer has the statement shape Model/SubInit.lean is the model of (see Gen/SubProto.lean: errChan, initSteps, closerBody, readerExit)", Model: facts})
+		}
+	}
 	// ---------------- A. exploration
 	cfgs := []c18Cfg{
 		{Evs: 1, Fin: true, Stop: true},
@@ -651,6 +673,7 @@ func runC18(ctx *Ctx) error {
 	scripts := c18Scripts(ctx, volume)
 	batch := 25
 	accepted, acceptTried := 0, 0
+	refusedAccepted, refusedTried := 0, 0
 	stressBad := 0
 	for b0 := 0; b0 < len(scripts); b0 += batch {
 		b1 := b0 + batch
@@ -710,6 +733,26 @@ func runC18(ctx *Ctx) error {
 			trs, _ := r["traces"].([]interface{})
 			for _, t := range trs {
 				tm, _ := t.(map[string]interface{})
+				if rf, _ := tm["refused"].(bool); rf {
+					// a start whose Subscribe failed after the handshake: the recorded hook points of
+					// its reader and closer must be the projections of a MAXIMAL run of the
+					// establishment model (variant from the regenerated facts) that ends with
+					// exactly the observed goroutines exited
+					refusedTried++
+					ctx.Rep.Count("stress.refused-start-trace")
+					res, err := ctx.Driver.Call(map[string]interface{}{"op": "c18.init.accept", "obs": tm["obs"], "done": tm["done"]})
+					if err != nil {
+						return err
+					}
+					if a, _ := res["accepted"].(bool); a {
+						refusedAccepted++
+						ctx.Rep.Traces++
+					} else {
+						ctx.Rep.Fail(hx.Failure{Kind: "model-mismatch", Detail: fmt.Sprintf("stress script %s: the hook trace of a refused start (Subscribe failed after the handshake) is not a maximal run of the %v establishment model", sc.ID, res["variant"]),
+							Case: cs, Impl: tm, Model: res, Index: b0 + i})
+					}
+					continue
+				}
 				if c, _ := tm["complete"].(bool); !c {
 					continue
 				}
@@ -761,7 +804,7 @@ func runC18(ctx *Ctx) error {
 			}
 		}
 	}
-	ctx.Rep.Note(fmt.Sprintf("forced schedules: %d (+%d connection-write orders); stress scripts: %d; free-running hook traces accepted by the model: %d/%d", nForced, len(conns), len(scripts), accepted, acceptTried))
+	ctx.Rep.Note(fmt.Sprintf("forced schedules: %d (+%d connection-write orders); stress scripts: %d; free-running hook traces accepted by the model: %d/%d; traces of refused starts accepted by the establishment model: %d/%d", nForced, len(conns), len(scripts), accepted, acceptTried, refusedAccepted, refusedTried))
 	return nil
 }
 
